@@ -202,6 +202,8 @@ def _potentially_unifying(lhs: AST, rhs: AST) -> bool:
         rhs, lhs = lhs, rhs
 
     if rhs.ast_type == ASTType.Function and lhs.ast_type in nfunc:
+        if lhs.ast_type == ASTType.SymbolicTerm and not rhs.arguments:
+            return str(lhs) == str(rhs)  # the constant written by a user and the one built as Function("unique")
         return False
 
     if lhs.ast_type == ASTType.SymbolicTerm and rhs.ast_type == ASTType.SymbolicTerm:
